@@ -5,7 +5,7 @@ from harness.tlutil import mk_tl, segs_of
 
 PROP = "C10"
 CHECK_MODULE = "Check.C10"
-COQ_IMPORTS = "Model.Timeline"
+COQ_IMPORTS = "Model.AnnotationOps Check.AnnCommon"
 SHARD = 400
 RULE = ("timelines: all of <=3 (quick) / <=4 (thorough) segments on a 6-point grid plus random ones of up to 12 "
         "segments (nested, chained, abutting, identical bounds, holes); regimes K0/K4/K1; observed: segmentation(), "
@@ -20,14 +20,32 @@ def generate(rng, tier):
             cases.append({"regime": regime, "segs": segs})
         for _ in range(6000 if tier == "thorough" else 800):
             cases.append({"regime": regime, "segs": gen.rand_timeline(rng, regime)})
+    from harness.annutil import rand_records, LABELS
+    for regime in ("K0", "K4", "K1"):
+        for _ in range(5000 if tier == "thorough" else 600):
+            labels = LABELS[: rng.randrange(1, 5)]
+            recs = rand_records(rng, regime, nseg=rng.choice([1, 2, 4, 6]), span=12, labels=labels,
+                                tracks=["x", "y", 0, 1, "A", "_"], allow_empty=0.0)
+            seen, out = set(), []
+            for s_, t_, l_ in recs:
+                if (tuple(s_), str(t_)) not in seen:
+                    seen.add((tuple(s_), str(t_)))
+                    out.append([s_, t_, l_])
+            lab = rng.choice([None, None, [], rng.sample(labels + ["zz"], rng.randrange(1, len(labels) + 1))])
+            cases.append({"k": "ann", "regime": regime, "recs": out, "labels": lab})
     return {"cases": cases, "meta": {"exhaustive": True, "small_scope_max_segments": k,
-                                     "sizes": gen.stats(cases, {"n_segments": lambda c: len(c["segs"])})}}
+                                     "sizes": gen.stats(cases, {"n_segments": lambda c: len(c.get("segs", c.get("recs", [])))})}}
 
 
 def run(case):
     tb = TB(case["regime"])
     tb.enter()
     try:
+        if case.get("k") == "ann":
+            from harness.annutil import mk_ann
+            a = mk_ann(tb, case["recs"], "u")
+            r = a.get_overlap() if case["labels"] is None else a.get_overlap(labels=list(case["labels"]))
+            return {"overlap": segs_of(tb, r)}
         t = mk_tl(tb, case["segs"])
         return {"segmentation": segs_of(tb, t.segmentation()), "overlap": segs_of(tb, t.get_overlap())}
     finally:
@@ -37,6 +55,10 @@ def run(case):
 def encode(case, o):
     e = enc
     eps = REGIMES[case["regime"]]["eps"]
+    if case.get("k") == "ann":
+        from harness.annutil import enc_triples, enc_names
+        labs = "None" if case["labels"] is None else f"(Some {enc_names(case['labels'])})"
+        return f"KAnn {e.z(eps)} {enc_triples(case['recs'])} {labs} {e.segs(o['overlap'])}"
     return f"K {e.z(eps)} {e.segs(case['segs'])} {e.segs(o['segmentation'])} {e.segs(o['overlap'])}"
 
 
@@ -45,5 +67,11 @@ def nontrivial(case, o):
 
 
 def shrink(case):
+    if case.get("k") == "ann":
+        for i in range(len(case["recs"])):
+            yield {**case, "recs": case["recs"][:i] + case["recs"][i + 1:]}
+        if case["labels"]:
+            yield {**case, "labels": None}
+        return
     for s in gen.shrink_segs(case["segs"]):
         yield {**case, "segs": s}
